@@ -11,8 +11,13 @@ ASSUMPTIONS = ['the clock is frozen between the reads of one stream (time-depend
 def gen_stream(rng, sc):
     """valid or invalid stream after the handshake, plus the handshake variant"""
     frames = []
+    deflate = rng.random() < 0.3
+    peer = None
+    if deflate:
+        from refcodec import DeflatePeer
+        peer = DeflatePeer(server_bits=rng.choice([15, 10, 8]), server_no_takeover=rng.random() < 0.3)
     for _ in range(rng.randint(1, 5)):
-        frames += gen_core.serialise_item(rng, gen_core.gen_item(rng))
+        frames += gen_core.serialise_item(rng, gen_core.gen_item(rng, gen_core.SMALL_SIZES, peer))
     r = rng.random()
     if r < 0.35:
         cls = rng.choice(gen_core.VIOLATIONS)
@@ -23,7 +28,9 @@ def gen_stream(rng, sc):
         frames += gen_core.serialise_item(rng, gen_core.gen_close(rng))
         frames += gen_core.serialise_item(rng, gen_core.gen_item(rng))
     hr = rng.random()
-    if hr < 0.8:
+    if deflate:
+        hs = sc.good_reply(b'Sec-WebSocket-Extensions: permessage-deflate; server_max_window_bits=%d%s\r\n' % (peer.sw, b'; server_no_context_takeover' if peer.snt else b''))
+    elif hr < 0.8:
         hs = sc.good_reply(rng.choice([b'', b'Sec-WebSocket-Protocol: chat\r\n', b'X-Folded: a\r\n  b\r\n']))
     elif hr < 0.9:
         hs = b'HTTP/1.1 404 Not Found\r\nContent-Length: 0\r\n\r\n'
